@@ -91,3 +91,71 @@ fn read_handler_null_arguments() {
 	let st = unsafe { Box::from_raw(state) };
 	assert!(rc == 0 && size_read == 77 && dest[0] == CANARY && dest[1] == CANARY && st.bouncer.is_empty());
 }
+
+// ---- Parser::next_event: a stashed reader error is re-surfaced, not replaced (C12) ----------------------
+// libyaml's yaml_parser_parse is replaced (stub of Event::parse_next) by "the parse failed", which is what
+// libyaml reports after read_handler returned READ_FAILURE.
+fn parse_next_fails(_parser: &mut yaml_parser_t) -> Result<Event, ParserError> {
+	Err(ParserError { problem: None, context: None })
+}
+
+#[kani::proof]
+#[kani::unwind(3)]
+#[kani::stub(Event::parse_next, parse_next_fails)]
+fn next_event_resurfaces_stashed_reader_error() {
+	let stashed: bool = kani::any();
+	let error = if stashed { Some(io::Error::from(io::ErrorKind::ConnectionReset)) } else { None };
+	let read_state = Box::into_raw(Box::new(ReadState { reader: AnyReader { lied: false, failed: false }, bouncer: Vec::with_capacity(1), error }));
+	// a parser object that is never handed to libyaml (parse_next is stubbed, Drop is skipped with forget)
+	let raw: Box<yaml_parser_t> = unsafe { Box::new(MaybeUninit::<yaml_parser_t>::zeroed().assume_init()) };
+	let mut p = Parser { parser: raw, read_state };
+	let r = p.next_event();
+	match r {
+		Ok(_) => assert!(false),
+		Err(e) => {
+			if stashed { assert!(e.kind() == io::ErrorKind::ConnectionReset, "the reader's own error must be re-surfaced"); }
+			else { assert!(e.kind() == io::ErrorKind::InvalidData, "a pure syntax error is InvalidData"); }
+			std::mem::forget(e);
+		}
+	}
+	assert!(unsafe { (*read_state).error.is_none() }, "the stash is emptied once the error has been reported");
+	std::mem::forget(p);
+}
+
+// ---- scripted libyaml: stubs used by the Chunker::next harnesses in chunker.rs --------------------------
+// Assumed contract of the libyaml parser, made executable: it produces a sequence of events whose marks are
+// monotone byte offsets into the stream it has read so far, and it pulls the stream through the reader.
+pub(crate) const EV_MAX: usize = 10;
+pub(crate) static mut EV_TYPE: [u32; EV_MAX] = [0; EV_MAX];     // 0 = error, otherwise a yaml_event_type_t discriminant + 1
+pub(crate) static mut EV_START: [u64; EV_MAX] = [0; EV_MAX];
+pub(crate) static mut EV_END: [u64; EV_MAX] = [0; EV_MAX];
+pub(crate) static mut EV_LEN: usize = 0;
+pub(crate) static mut EV_POS: usize = 0;
+pub(crate) static mut EV_DELIVERED: u64 = 0;
+
+pub(crate) fn fake_new<R: Read>(reader: R) -> Parser<R> {
+	let read_state = Box::into_raw(Box::new(ReadState { reader, bouncer: Vec::with_capacity(1), error: None }));
+	let raw: Box<yaml_parser_t> = unsafe { Box::new(MaybeUninit::<yaml_parser_t>::zeroed().assume_init()) };
+	Parser { parser: raw, read_state }
+}
+
+pub(crate) fn scripted_next_event<R: Read>(p: &mut Parser<R>) -> Result<Event, io::Error> {
+	unsafe {
+		assert!(EV_POS < EV_LEN, "the chunker asked for an event after STREAM-END");
+		let i = EV_POS; EV_POS += 1;
+		if EV_TYPE[i] == 0 { return Err(io::Error::from(io::ErrorKind::InvalidData)); }
+		// the parser has read at least up to the end mark of the event it reports
+		let mut guard = 0;
+		while EV_DELIVERED < EV_END[i] && guard < 3 {
+			let mut buf = [0u8; 8];
+			match p.reader_mut().read(&mut buf) { Ok(0) => break, Ok(n) => EV_DELIVERED += n as u64, Err(_) => {} }
+			guard += 1;
+		}
+		let mut ev: yaml_event_t = MaybeUninit::<yaml_event_t>::zeroed().assume_init();
+		ev.type_ = match EV_TYPE[i] { 1 => YAML_STREAM_START_EVENT, 2 => YAML_STREAM_END_EVENT, 3 => YAML_DOCUMENT_START_EVENT, 4 => YAML_DOCUMENT_END_EVENT,
+			5 => YAML_ALIAS_EVENT, 6 => YAML_SCALAR_EVENT, 7 => YAML_SEQUENCE_START_EVENT, 8 => YAML_SEQUENCE_END_EVENT, 9 => YAML_MAPPING_START_EVENT, _ => YAML_MAPPING_END_EVENT };
+		ev.start_mark.index = EV_START[i];
+		ev.end_mark.index = EV_END[i];
+		Ok(Event(ev))
+	}
+}
